@@ -195,6 +195,8 @@ def slots(ctx, cgf):
     ctx.ob(['C04', 'C20'], 'R-EXPR', 'E3|placeholder-count', okcount,
            'exactly target − len(output) placeholders are pushed (half-open Range from 0, one unconditional push per iteration): %s' % det, mw)
     fe = mpf.expr_of_operand(mp[0]['term']['args'][1])
+    if fe[0] != 'agg':
+        fe = strip(simplify(expand(mpf, fe)))       # the same value built with Function::new(..).with_*(..)
     okf = False
     if fe[0] == 'agg' and fe[1] == FUNCTION:
         fl = dict(fe[2])
@@ -306,6 +308,8 @@ def inherit(ctx, vb):
             if t[0] != 'tuple' or len(t[1]) != 2:
                 outs.append((x, ('agg', '?', []), t))
                 continue
+            # (values built with the crate's own constructors — Region::field(..) — are literals after constructor evaluation)
+            t = ('tuple', [strip(simplify(expand(vb, y_))) for y_ in t[1]])
             if not any(o[1] == t[1][0] and o[2] == t[1][1] for o in outs):
                 outs.append((x, t[1][0], t[1][1]))
     kinds = {}
@@ -421,8 +425,9 @@ def vtype(ctx):
     okn = all(x['kind'] == 'none_prop' and (find_calls(x['expr'], 'ItemPath::last') or find_calls(x['expr'], 'ItemPath::parent')) for x in nones)
     ctx.ob(['C06', 'C04', 'C14'], 'R-DOM', 'VBT|always-some', okn,
            'the vftable struct is generated for every declared vftable block, whatever its functions (None only for a path without name/parent): %s' % [(x['kind'], show(x['expr'])[:60]) for x in nones if x['kind'] != 'none_prop'], where)
-    idf = dict(some[0]['expr'][2][0][1][2])
-    isr = dict(idf['state'][2][0][1][2])
+    some_e = ctor_norm(P, some[0]['expr'])       # (ItemDefinition::defined_resolved(..) etc. are literals after constructor evaluation)
+    idf = dict(some_e[2][0][1][2])
+    isr = dict(strip(idf['state'])[2][0][1][2])
     td = None
     for x in walk(isr['inner']):
         if isinstance(x, tuple) and x[0] == 'agg' and x[1].endswith('type_definition::TypeDefinition'):
